@@ -29,7 +29,9 @@ class C18(Check):
                   "(what actions do to a frame is C12); the harness releases with a single output:IN_PORT action so the stored ingress port is observable.")
     trusted_base = ["model Model/BufPool.lean hand-written from switch.py _buffer_packet/_process_actions_for_packet_from_buffer/send_packet_in; tied by this correspondence run"]
     assumptions = ["single-threaded datapath (cooperative tasks): buffer operations are not interleaved",
-                   "frames used by the harness parse as Ethernet (>= 14 bytes)"]
+                   "frames used by the harness parse as Ethernet (>= 14 bytes)",
+                   "the pool stores the parsed ethernet object and emission re-packs it, the model stores bytes: they agree where pack(parse(frame)) = frame (C14's round trip; C12-3/C12-4 are the known exceptions)",
+                   "release towards the controller is modelled for ONE output:CONTROLLER in the action list (op usectl); an action list with several CONTROLLER outputs, or output:TABLE causing a further table miss while the old slot is occupied, is not an op of the model (the pool bound `bounded` does not depend on it: alloc never exceeds max)"]
     rule = ("case = (max_buffers 0..4, miss_send_len, history over {miss arrival, output:CONTROLLER(max_len) arrival, packet_out(buffer id), flow_mod(buffer id), the same with an empty action list (drop), "
             "stale/bogus/zero ids, set_config}); corpus = all histories of length <= 4 over a 10-op alphabet with pool sizes 0..2; non-trivial = some id is handed out and later used, or the pool fills")
 
